@@ -82,6 +82,8 @@ class Ctx:
         self.pid = pid
         self.shard = shard
         self.journal = journal
+        self._jfd = None
+        self._jlen = 0
         self.tier = tier
         self.seed = seed
         self.known_list = load_known()
@@ -99,13 +101,23 @@ class Ctx:
 
     # -- journal
     def begin(self, case):
+        # write-ahead journal: the case about to run, in place through one descriptor (two system calls; the data
+        # is in the page cache before the case starts, which is all a dying worker's parent needs).  The length
+        # prefix lets the parent discard a torn record.
         if self.journal:
-            tmp = self.journal + '.tmp'
-            with open(tmp, 'w') as f:
-                f.write(canon(case))
-            os.replace(tmp, self.journal)
+            if self._jfd is None:
+                self._jfd = os.open(self.journal, os.O_WRONLY | os.O_CREAT | os.O_TRUNC, 0o644)
+            body = canon(case).encode()
+            rec = b'%012d\n' % len(body) + body
+            os.pwrite(self._jfd, rec, 0)
+            if len(rec) < self._jlen:
+                os.ftruncate(self._jfd, len(rec))
+            self._jlen = len(rec)
 
     def end(self):
+        if self._jfd is not None:
+            os.close(self._jfd)
+            self._jfd = None
         if self.journal and os.path.exists(self.journal):
             os.unlink(self.journal)
 
@@ -386,8 +398,10 @@ def run_shards(pid, shards, workdir, tier, seed, build_dirs, nproc=NPROC, timeou
             jcase = None
             if os.path.exists(r['journal']):
                 try:
-                    with open(r['journal']) as f:
-                        jcase = json.load(f)
+                    with open(r['journal'], 'rb') as f:
+                        n = int(f.readline())
+                        body = f.read(n)
+                    jcase = json.loads(body) if len(body) == n else None
                 except Exception:
                     jcase = None
             with open(r['log'], errors='replace') as f:
